@@ -288,6 +288,13 @@ func (r *Report) writeEvidence(o finishOpts, evDir string, total, discharged, no
 	for k, v := range r.Extra {
 		cov[k] = v
 	}
+	if r.Assumptions == nil {
+		r.Assumptions = []string{}
+	}
+	if r.Trusted == nil {
+		r.Trusted = []string{}
+	}
+	cov["trusted_base"] = r.Trusted
 	ev := map[string]interface{}{
 		"property_id": r.Property,
 		"tier":        r.Tier,
